@@ -56,3 +56,40 @@ pub fn good_loop(n: u8) -> u32 {
     }
     total
 }
+
+/// MUST be reported: both operands depend on the same caller-chosen value (no independence), the sum still exceeds u32
+/// for x = u32::MAX.
+pub fn bad_dependent(x: u32) -> u32 {
+    let q = x / 4 + 1;
+    x + q
+}
+
+/// must NOT be reported: dependent operands whose sum stays below u32::MAX.
+pub fn good_dependent(x: u32) -> u32 {
+    let h = x / 2;
+    let q = x / 4;
+    h + q
+}
+
+/// MUST be reported (lossy narrowing): a carry that exceeds 32 bits is narrowed with `as`.
+pub fn bad_narrow(secs: i64, nanos: i32) -> i32 {
+    let secs = secs / 4;
+    let carry = i64::from(nanos) / 1_000_000_000;
+    let total = secs + carry;
+    let extra = i64::from(nanos) / 7;
+    let days = (total + extra) / 86_400;
+    days as i32
+}
+
+/// must NOT be reported (lossy narrowing): the same carry, range-checked before the cast.
+pub fn good_narrow(secs: i64, nanos: i32) -> Option<i32> {
+    let secs = secs / 4;
+    let carry = i64::from(nanos) / 1_000_000_000;
+    let total = secs + carry;
+    let extra = i64::from(nanos) / 7;
+    let days = (total + extra) / 86_400;
+    if !(-100_000_000..=100_000_000).contains(&days) {
+        return None;
+    }
+    Some(days as i32)
+}
